@@ -25,6 +25,8 @@ pub enum Op {
 	Receive { crash: Option<u64> },
 	ReceiveOtherAcct,
 	Send { crash: Option<u64> },
+	/// a send with two change outputs whose source is the other account, named while this one is active
+	SendNamed,
 	CoinbaseNew { crash: Option<u64> },
 	CoinbaseRerequest,
 	CoinbaseForeignKey,
@@ -122,6 +124,7 @@ fn op_kind(op: &Op) -> &'static str {
 		Op::Receive { .. } => "receive",
 		Op::ReceiveOtherAcct => "receive-other-account",
 		Op::Send { .. } => "send",
+		Op::SendNamed => "send-named",
 		Op::CoinbaseNew { .. } => "coinbase-new",
 		Op::CoinbaseRerequest => "coinbase-rerequest",
 		Op::CoinbaseForeignKey => "coinbase-foreign-key",
@@ -170,6 +173,7 @@ impl Model for M {
 			Op::Receive { crash: None },
 			Op::ReceiveOtherAcct,
 			Op::Send { crash: None },
+			Op::SendNamed,
 			Op::CoinbaseNew { crash: None },
 			Op::CoinbaseRerequest,
 			Op::CoinbaseForeignKey,
@@ -228,6 +232,13 @@ impl Model for M {
 					a.lock(&s)
 				})
 			}
+			Op::SendNamed => catch(|| {
+				let mut args = default_args(2 * G);
+				args.num_change_outputs = 2;
+				args.src_acct_name = Some(other(&m.active).to_owned());
+				let s = a.init_send(args)?;
+				a.lock(&s)
+			}),
 			Op::CoinbaseNew { crash } => {
 				arm(crash);
 				let bf = BlockFees { fees: 0, key_id: None, height: w.node.height() + 1 };
@@ -675,6 +686,10 @@ pub fn run(_args: &[String]) -> i32 {
 				paths.push(vec![f.clone(), Op::CancelReceive, n.clone()]);
 				paths.push(vec![f.clone(), Op::CancelReceive, Op::Restart, n.clone()]);
 			}
+		}
+		for n in nexts.iter() {
+			paths.push(vec![Op::SendNamed, n.clone()]);
+			paths.push(vec![Op::SendNamed, Op::Switch, n.clone()]);
 		}
 		let root = scratch_root();
 		let res = par_map(&paths, workers(), |i, p| run_path(&m, &format!("{}/c15-d{}", root, i), p));
